@@ -23,7 +23,7 @@ RULE = ('histories of parse(document, context, flags) calls sharing one process,
 ASSUMPTIONS = ['the freeze() flag set by the walker is excluded from the database snapshot',
                'fresh results come from subprocesses started with the same PYTHONHASHSEED']
 NSHARDS = 16
-RECIPES = ['default', 'every', 'extended', 'extra']
+RECIPES = ['default', 'every', 'extended', 'extra', 'extdelta']
 
 SUSPICIOUS = [
     ['every', '\\mv{a{b}c}d'],
@@ -42,6 +42,9 @@ SUSPICIOUS_MORE = [
     ['extra', '\\mcomma{a,b{c,d},e}x\\mcommak{,a,}'],
     ['extra', '\\mtack{a}\\ta{x}\\tb y\\tb{z}w\\mempty+\\mempty'],
     ['extra', '\\mchars{a{b}%c\n}\\me^a_b'],
+    ['extdelta', '\\begin{defenv}\\entry[a]b\\end{defenv}\\entry[c]'],
+    ['extdelta', '\\entry[b]\\auto[x]{y}\\textbf{z}'],
+    ['extdelta', '\\begin{defenvb}[o]\\entry{a}{b}\\textbf{c}\\end{defenvb}\\textbf{d}'],
 ]
 POOL = SUSPICIOUS + SUSPICIOUS_MORE + [
     ['every', '\\mt+\\mt \\md<a>\\md x'],
